@@ -1,0 +1,16 @@
+"""Verification hooks (no-ops unless the environment variable ``Y0_VERIF`` is ``1``).
+
+``trace(tag, **facts)`` reports which branch of an algorithm fired to an external monitor
+that has registered itself as ``SINK``.  Nothing in y0 depends on these calls.
+"""
+
+import os
+
+ON = os.environ.get("Y0_VERIF") == "1"
+SINK = None
+
+
+def trace(tag, **facts):  # type:ignore
+    """Report a branch event to the registered sink, if any."""
+    if ON and SINK is not None:
+        SINK(tag, facts)
